@@ -304,6 +304,22 @@ def run_anim(case):
                               "plot_current_time": bool(case["pct"])})
             creator.partial_gantt_chart_plotter = stub_plot
             ho = creator.history_observer
+            # earlier episodes on the same dispatcher / creator (the life cycle of the RL environments:
+            # one creator, dispatcher.reset() per episode, rendering after some of them)
+            for wh, render in case.get("warm", []):
+                for j, p, m in wh:
+                    d.dispatch(inst.jobs[j][p], m)
+                if render == 1:
+                    creator.create_gif()
+                elif render == 2:
+                    creator.create_video()
+                d.reset()
+                os.makedirs(frames_dir, exist_ok=True)
+            ncalls[0] = 0
+            for acc in (calls, saved, charts):
+                acc.clear()
+            del listings[:]
+            del captured[:]
         else:
             ho = HistoryObserver(d)
         if mode == 3:
@@ -520,9 +536,17 @@ class C20(Check):
         self.note("anim_frames_total", n)
         self.note("anim_n>=100" if n >= 100 else "anim_n<100")
         self.note(f"anim_mode{mode}")
-        return {"kind": "anim", "spec": spec, "history": hist, "mode": mode, "ks": ks,
+        case = {"kind": "anim", "spec": spec, "history": hist, "mode": mode, "ks": ks,
                 "shuffle": rng.randrange(1 << 30), "pct": int(rng.random() < 0.5),
                 "real_plot": int(real_plot)}
+        if mode in (1, 2) and rng.random() < 0.5:
+            # the recorded history is the one of the CURRENT episode: earlier episodes (some rendered) first
+            case["warm"] = [[random_history(rng, spec, rng.randint(1, min(total, 12))), rng.randrange(3)]
+                            for _ in range(rng.randint(1, 2))]
+            self.note("anim_after_earlier_episodes")
+            if any(r for _, r in case["warm"]):
+                self.note("anim_after_earlier_rendering")
+        return case
 
     def gen_solver(self, rng):
         spec = common.gen_instance(rng, max_jobs=4, max_machines=3, max_ops=4, flexible=False)
@@ -741,6 +765,9 @@ class C20(Check):
         return case
 
     def shrink_candidates(self, case):
+        if case.get("warm"):
+            yield {k: v for k, v in case.items() if k != "warm"}
+            yield dict(case, warm=case["warm"][:-1])
         if case["kind"] == "anim" and case["mode"] != 3:
             h = case["history"]
             n = len(h)
